@@ -605,7 +605,219 @@ def _pygraph(case, out):
     return n >= 2
 
 
-SUBS = {"geom": _geom, "pykin": _pykin, "engine": _engine, "graph": _graph, "traj": _traj, "pygraph": _pygraph}
+# ---- histories (E2): set_boundary_conditions sequences and copy() on ONE object ------------------
+#
+# Documentation: building_and_simulating_rds.rst "By default, reflecting boundary conditions are applied ... it is
+# possible to specify the boundary conditions for each axis" (a constructor dict naming only some axes leaves the
+# others reflecting).  For set_boundary_conditions on an existing object the docstring only says "Sets the boundary
+# conditions"; what an axis NOT named in a later call becomes (default or previous value) is not documented, so for
+# such an axis either is accepted and the setting reported by get_boundary_conditions() is taken as the truth that
+# every other observer must follow.  A named axis must be reported as given.
+
+VAL = {0: "reflecting", 1: "periodical"}
+H_VARIANT = 1          # 8 um3 cells in a (nm, ms, mol) grid: D/edge^2 = 0.25 /s
+ALPHA27 = [[a, b, c] for a in (-1, 0, 1) for b in (-1, 0, 1) for c in (-1, 0, 1)]   # per axis: absent / R / P
+FULL8 = [[a, b, c] for a in (0, 1) for b in (0, 1) for c in (0, 1)]
+OBSERVERS = ("are_neighbors", "get_neighbors", "grid_to_graph", "engine-euler-grid", "kinetics.compute_dstatedt")
+
+
+def _call_dict(call):
+    return {a: VAL[v] for a, v in zip("xyz", call) if v >= 0}
+
+
+def _ctor_grid(case):
+    init = case["init"]
+    if case.get("ctor") == "minimal":
+        bc = {a: "periodical" for a, v in zip("xyz", init) if v}       # unnamed axes: documented default
+    else:
+        bc = {a: VAL[v] for a, v in zip("xyz", init)}
+    v = VARIANTS[H_VARIANT]
+    return RDGridSpace(w=case["w"], h=case["h"], d=case["d"], cell_env=0, cell_vol=v["vol"],
+                       boundary_conditions=bc, units_system=uq.mk_sys(v["sys"]))
+
+
+def _prime_system(g):
+    n = g.size()
+    net = RDNetwork(species=[Species("A", D=D1)], reactions=[], environments=["e0"])
+    return RDSystem(net, g, state=[float(p) for p in primes(n)])
+
+
+def _observe(g, do_pykin, out):
+    """What every geometry observer says about grid object g (exceptions recorded per observer)."""
+    n = g.size()
+    obs = {}
+
+    def grab(name, f):
+        try:
+            obs[name] = f()
+        except Exception as ex:
+            obs[name] = ("exception", _exc(ex))
+
+    out.ops += n * (n - 1) + n + 2
+    grab("are_neighbors", lambda: [[(bool(g.are_neighbors(a, b)) if a != b else None) for b in range(n)]
+                                   for a in range(n)])
+    grab("get_neighbors", lambda: [sorted(set(int(j) for j in g.get_neighbors(c)) - {c}) for c in range(n)])
+    grab("grid_to_graph", lambda: sorted((min(e.i, e.j), max(e.i, e.j)) for e in grid_to_graph(g).edges if e.i != e.j))
+
+    def engine():
+        sc = RDScript(_prime_system(g), t_sample=[0], time_step=DT, sampling_policy="on_iteration", t_max=DT / 2,
+                      rng_seed=1)
+        tr, nit = eng.simulate("euler", sc, max_iter=10)
+        data = [float(x) for x in tr.data.convert(UnitsSystem()).value]
+        if nit != 1 or len(data) != 2 * n:
+            raise RuntimeError("%d iterations, %d values" % (nit, len(data)))
+        return [data[n + j] - data[j] for j in range(n)]
+    grab("engine-euler-grid", engine)
+    if do_pykin:
+        out.ops += n
+        grab("kinetics.compute_dstatedt",
+             lambda: [float(x) for x in kinetics.compute_dstatedt(_prime_system(g)).convert(UnitsSystem()).value])
+    return obs
+
+
+def _reference_obs(w, h, d, per, do_pykin):
+    n = w * h * d
+    x = [float(p) for p in primes(n)]
+    ref = {
+        "are_neighbors": [[(L.related(w, h, d, per, a, b) if a != b else None) for b in range(n)] for a in range(n)],
+        "get_neighbors": [L.neighbours(w, h, d, per, c) for c in range(n)],
+        "grid_to_graph": L.edges_distinct(w, h, d, per),
+    }
+    der = [D1 / 4.0 * sum(x[j] - x[i] for j in L.face_list(w, h, d, per, i)) for i in range(n)]
+    ref["engine-euler-grid"] = [DT * v for v in der]
+    if do_pykin:
+        ref["kinetics.compute_dstatedt"] = der
+    return ref
+
+
+_FRESH = {}
+
+
+def _fresh_obs(w, h, d, per, do_pykin):
+    key = (w, h, d, tuple(per), bool(do_pykin))
+    if key not in _FRESH:
+        g = _ctor_grid({"w": w, "h": h, "d": d, "init": [int(p) for p in per], "ctor": "full"})
+        _FRESH[key] = _observe(g, do_pykin, Out())
+    return _FRESH[key]
+
+
+def _same(name, a, b, n):
+    if isinstance(a, tuple) or isinstance(b, tuple):
+        return a == b
+    if name in ("engine-euler-grid", "kinetics.compute_dstatedt"):
+        scale = D1 / 4.0 * 6 * float(primes(n)[-1]) * (DT if name == "engine-euler-grid" else 1.0)
+        return len(a) == len(b) and all(abs(u - v) <= REL_FLUX * scale for u, v in zip(a, b))
+    return a == b
+
+
+def _first_diff(name, a, b):
+    if isinstance(a, tuple):
+        return "raised %s" % a[1]
+    if isinstance(b, tuple):
+        return "the comparison side raised %s" % b[1]
+    if name == "are_neighbors":
+        for i, (ra, rb) in enumerate(zip(a, b)):
+            for j, (u, v) in enumerate(zip(ra, rb)):
+                if u != v:
+                    return "are_neighbors(%d,%d) = %r, expected %r" % (i, j, u, v)
+    if name == "get_neighbors":
+        for i, (u, v) in enumerate(zip(a, b)):
+            if u != v:
+                return "set(get_neighbors(%d)) - {self} = %r, expected %r" % (i, u, v)
+    if name == "grid_to_graph":
+        return "edges between distinct cells %r, expected %r" % (a[:12], b[:12])
+    for i, (u, v) in enumerate(zip(a, b)):
+        if u != v:
+            return "cell %d: %.17g, expected %.17g (state = first primes, pure diffusion)" % (i, u, v)
+    return "lengths %d / %d" % (len(a), len(b))
+
+
+def _judge(tag, g, w, h, d, allowed, do_pykin, out, where):
+    """g must report a setting within `allowed` (list of 3 sets) and every observer must follow the reported one."""
+    n = w * h * d
+    out.ops += 1
+    out.evals += 1
+    try:
+        bc = g.get_boundary_conditions()
+    except Exception as ex:
+        out.add("%s:%s:get_boundary_conditions:unexpected-exception" % (P, tag), "%s (%s)" % (_exc(ex), where))
+        return None
+    if not (isinstance(bc, dict) and sorted(bc) == ["x", "y", "z"] and all(v in VAL.values() for v in bc.values())):
+        out.add("%s:%s:get_boundary_conditions:malformed" % (P, tag), "get_boundary_conditions() = %r (%s)" % (bc, where))
+        return None
+    for k, a in enumerate("xyz"):
+        if bc[a] not in allowed[k]:
+            out.add("%s:%s:get_boundary_conditions:axis-not-as-set" % (P, tag),
+                    "get_boundary_conditions() = %r, axis %s should be %s (%s)" % (bc, a, " or ".join(sorted(allowed[k])), where))
+            return None
+    per = tuple(bc[a] == "periodical" for a in "xyz")
+    obs = _observe(g, do_pykin, out)
+    ref = _reference_obs(w, h, d, per, do_pykin)
+    fresh = _fresh_obs(w, h, d, per, do_pykin)
+    for name in OBSERVERS:
+        if name not in obs:
+            continue
+        out.evals += 2
+        if isinstance(obs[name], tuple):
+            out.add("%s:%s:%s:unexpected-exception" % (P, tag, name),
+                    "%s; object reports %r (%s)" % (obs[name][1], bc, where))
+            continue
+        if not _same(name, obs[name], ref[name], n):
+            out.add("%s:%s:%s:differs-from-reference" % (P, tag, name),
+                    "%s; object reports %r (%s)" % (_first_diff(name, obs[name], ref[name]), bc, where))
+        if not _same(name, obs[name], fresh[name], n):
+            out.add("%s:%s:%s:differs-from-fresh-grid" % (P, tag, name),
+                    "%s on a grid built directly with %r (%s)" % (_first_diff(name, obs[name], fresh[name]), bc, where))
+    return per
+
+
+def _history(case, out):
+    w, h, d = case["w"], case["h"], case["d"]
+    g = _ctor_grid(case)
+    allowed = [{VAL[v]} for v in case["init"]]
+    for call in case["calls"]:
+        out.ops += 1
+        g.set_boundary_conditions(_call_dict(call))
+        allowed = [({VAL[v]} if v >= 0 else (allowed[k] | {"reflecting"})) for k, v in enumerate(call)]
+    where = "%dx%dx%d built with %s, then set_boundary_conditions%s" % (
+        w, h, d, _call_dict(case["init"]), "".join("(%r)" % (_call_dict(c),) for c in case["calls"]))
+    per = _judge("history", g, w, h, d, allowed, bool(case.get("pykin")), out, where)
+    if any(v < 0 for c in case["calls"] for v in c):
+        out.count("histories_with_partial_dict")
+    nt = per is not None and [int(p) for p in per] != list(case["init"])
+    if nt:
+        out.count("histories_final_setting_differs_from_initial")
+    return nt
+
+
+def _copy(case, out):
+    w, h, d = case["w"], case["h"], case["d"]
+    g = _ctor_grid(dict(case, ctor="minimal"))
+    out.ops += 2
+    c = g.copy()
+    if type(c) is not RDGridSpace or c is g:
+        out.add(P + ":copy:result", "copy() returned %r" % (c,))
+        return True
+    new = {a: VAL[v] for a, v in zip("xyz", case["new"])}
+    a_init = [{VAL[v]} for v in case["init"]]
+    a_new = [{VAL[v]} for v in case["new"]]
+    where = "%dx%dx%d built with %s, copy(), then %s.set_boundary_conditions(%r)" % (
+        w, h, d, {a: "periodical" for a, v in zip("xyz", case["init"]) if v},
+        "copy" if case["mode"] == "change-copy" else "original", new)
+    if case["mode"] == "change-copy":
+        c.set_boundary_conditions(new)
+        _judge("copy:changed-copy", c, w, h, d, a_new, False, out, where)
+        _judge("copy:untouched-original", g, w, h, d, a_init, False, out, where)
+    else:
+        g.set_boundary_conditions(new)
+        _judge("copy:changed-original", g, w, h, d, a_new, False, out, where)
+        _judge("copy:untouched-copy", c, w, h, d, a_init, False, out, where)
+    return case["init"] != case["new"]
+
+
+
+SUBS = {"geom": _geom, "pykin": _pykin, "engine": _engine, "graph": _graph, "traj": _traj, "pygraph": _pygraph,
+        "history": _history, "copy": _copy}
 
 
 def _run_case(case):
@@ -655,6 +867,32 @@ def _spaces(tier):
                [dict(g, sub="graph", variant=v) for g in grids for v in range(len(VARIANTS))], 16))
     sp.append(("traj: all grids {1..%d}^3 x 8 x 2 variants (plain; other units + chemostats): 3 Euler steps grid vs graph" % N,
                [dict(g, sub="traj", variant=v, chem=v) for g in grids for v in (0, 1)], 8))
+
+    # histories on one object (E2)
+    def shp(t):
+        return {"w": t[0], "h": t[1], "d": t[2]}
+    small = [(1, 2, 3), (4, 2, 1)]               # axes of length 1, 2, 3 and 4, 2, 1; <= 8 cells
+    big = [(2, 3, 4), (3, 1, 4)]
+    shapes = small + (big if tier == "thorough" else [])
+    h1 = [dict(shp(t), sub="history", ctor="full", init=i, calls=[c], pykin=(t[0] * t[1] * t[2] <= 8 and (tier == "thorough" or t == small[0])))
+          for t in shapes for i in FULL8 for c in ALPHA27]
+    sp.insert(0, ("history1: %d shapes x 8 initial settings x 1 set_boundary_conditions call out of 27 (each axis absent / "
+                  "reflecting / periodical): every observer follows the reported final setting" % len(shapes), h1, 6))
+    if tier == "thorough":
+        h2 = [dict(shp(t), sub="history", ctor="full", init=i, calls=[c1, c2], pykin=(t == small[0]))
+              for t in small for i in FULL8 for c1 in ALPHA27 for c2 in ALPHA27]
+        h2 += [dict(shp(t), sub="history", ctor="full", init=i, calls=[c1, c2], pykin=False)
+               for t in big for i in FULL8 for c1 in FULL8 for c2 in FULL8]
+        name2 = ("history2: 2 shapes x 8 initial settings x 27 x 27 calls + 2 larger shapes x 8 x 8 x 8 full-dict calls")
+    else:
+        h2 = [dict(shp(t), sub="history", ctor="full", init=i, calls=[c1, c2], pykin=False)
+              for t in small for i in FULL8 for c1 in FULL8 for c2 in FULL8]
+        name2 = "history2: 2 shapes x 8 initial settings x 8 x 8 full-dict calls"
+    sp.insert(1, (name2 + ": every observer follows the final setting", h2, 12))
+    cp = [dict(shp(t), sub="copy", init=i, new=j, mode=m) for t in shapes for i in FULL8 for j in FULL8
+          for m in ("change-copy", "change-original")]
+    sp.append(("copy: %d shapes x 8 x 8 settings x {change the copy, change the original}: the other object is "
+               "unaffected, both consistent" % len(shapes), cp, 16))
     return sp
 
 
@@ -695,7 +933,7 @@ def run(ctx):
         if isinstance(r, pool.Crash):
             i, lo, hi = job
             sub = _SPACES[i][1][lo]["sub"]
-            site = "engine" if sub in ("engine", "traj") else "checker"
+            site = "engine" if sub in ("engine", "traj", "history", "copy") else "checker"
             ctx.violation("%s:%s:%s:worker-%s" % (P, site, sub, r.kind), r.detail[-1500:],
                           {"job": list(job), "cases": _SPACES[i][1][lo:hi][:3]})
             continue
@@ -705,11 +943,13 @@ def run(ctx):
         ctx.subspace(name, len(cases), per.get(i, 0), exhaustive=(per.get(i, 0) == len(cases)))
     ctx.rule("every case of each listed sub-space is enumerated in fixed order on the real code; cases are distinct "
              "tuples (grid[, source cell | variant]); non-trivial = geom/traj/pygraph: grid of >= 2 cells; "
-             "pykin/engine: the source cell has >= 1 reference neighbour; graph: >= 1 face between distinct cells")
+             "pykin/engine: the source cell has >= 1 reference neighbour; graph: >= 1 face between distinct cells; "
+             "history: the final setting differs from the initial one; copy: the new setting differs from the initial one")
     ctx.assume("reference layout mc/ref/layout.py (self-tested in this run against an independent definition of the "
                "relation and closed-form face counts); exact SI scales of mc/ref/si.py; self pairs (c,c) of a graph "
                "and duplicates / self entries in get_neighbors lists are not constrained (the statement speaks of the "
-               "relation between distinct cells)")
+               "relation between distinct cells); an axis not named in a later set_boundary_conditions call may become "
+               "either its previous value or the default (undocumented): the reported setting is taken as the truth")
 
 
 def replay(case):
